@@ -53,7 +53,7 @@ type Case struct {
 
 func typeOpts() gen.TypeOpts {
 	return gen.TypeOpts{Depth: 3, Width: 4, Leaves: gen.AllScalars, MapKeys: gen.KeyScalars,
-		Structs: true, Tuples: true, Maps: true, Lists: true, ZeroMem: true}
+		Structs: true, Tuples: true, Maps: true, Lists: true, ZeroMem: true, Wide: true}
 }
 
 func countNodes(t *ref.Type) int {
